@@ -21,6 +21,8 @@
  *   cfg 2  S1: higher_outgoing_priority< c2 >
  *   cfg 3  like cfg 1, but S1 starts with include_service< S2 >: one more attribute (handle 2) in front of c0, every later
  *          handle is one higher than in the table above
+ *   cfg 4  like cfg 0, but with a service without characteristics (0x1810, one attribute) in front of S1: every handle is
+ *          one higher than in the table above
  */
 #include <bluetoe/link_layer.hpp>
 #include <bluetoe/ll_data_pdu_buffer.hpp>
@@ -107,9 +109,16 @@ using e10_server3 = bluetoe::server<
     bluetoe::higher_outgoing_priority< e10_S2 >
 >;
 
+using e10_server4 = bluetoe::server<
+    bluetoe::no_gap_service_for_gatt_servers,
+    bluetoe::service< bluetoe::service_uuid16< 0x1810 > >,
+    bluetoe::service< e10_S1, e10_c0, e10_c1, e10_c2, e10_c3 >,
+    bluetoe::service< e10_S2, e10_c4, e10_c5 >
+>;
+
 /* one unit per configuration (E10_PART = cfg, selected by the property spec): keeps the generated C small */
 #ifndef E10_PART
-#error "E10_PART (0, 1, 2, 3) selects the configuration"
+#error "E10_PART (0 .. 4) selects the configuration"
 #endif
 #if E10_PART == 0
 using e10_server_t = e10_server0;
@@ -117,8 +126,10 @@ using e10_server_t = e10_server0;
 using e10_server_t = e10_server1;
 #elif E10_PART == 2
 using e10_server_t = e10_server2;
-#else
+#elif E10_PART == 3
 using e10_server_t = e10_server3;
+#else
+using e10_server_t = e10_server4;
 #endif
 
 using e10_ll_t = bluetoe::link_layer::link_layer< e10_server_t, e10::radio >;
